@@ -69,6 +69,14 @@ const CS: [&str; 7] = ["", "va", "vb", "vc", "vd", "ve", "vf"];
 const ACT: [char; 7] = [' ', '~', '!', '?', '+', '<', '>'];
 const CC: [char; 7] = [' ', 'Q', 'R', 'S', 'T', 'U', 'V'];
 
+fn def_prefixes(global: bool, pick: usize) -> &'static str {
+    if global {
+        ["\\global", "\\long\\global", "\\global\\long", "\\outer\\global", "\\long\\outer\\global", "\\global", "\\outer\\long\\global\\long"][pick % 7]
+    } else {
+        ["", "", "\\long", "", "\\outer", "", "\\long\\outer"][pick % 7]
+    }
+}
+
 impl Bind {
     pub fn is_map(&self) -> bool {
         MAP_KINDS.contains(&self.kind)
@@ -135,8 +143,9 @@ impl Bind {
                     format!("{g}\\toks{s}={{t{x}}}")
                 }
             }
-            K::MacroCs | K::MacroPre => format!("{g}\\def\\{}{{m{x}}}", CS[s]),
-            K::MacroActive | K::MacroActivePre => format!("{g}\\def{}{{m{x}}}", ACT[s]),
+            // \long and \outer may stand with \global in any order (TeX.2021.1211); they change nothing here
+            K::MacroCs | K::MacroPre => format!("{}\\def\\{}{{m{x}}}", def_prefixes(global, x + cur + s), CS[s]),
+            K::MacroActive | K::MacroActivePre => format!("{}\\def{}{{m{x}}}", def_prefixes(global, x + 2 * cur + s), ACT[s]),
             K::LetChar => format!("{g}\\let\\{}={} ", CS[s], ['?', 'a', 'b'][x]),
             K::LetCmd | K::LetCmdPre => format!("{g}\\let\\{}=\\{} ", CS[s], ["zero", "one", "two"][x]),
             K::CountViaAlias | K::NewInt => format!("{g}\\{}={} ", CS[s], [0, 11, 22][x]),
